@@ -22,6 +22,9 @@ ASSUMPTIONS = ["solve_ivp/simpson in the real code and in the harness integrator
                "and 1e-2 (kappa: Simpson on 501 resampled points in the code, Simpson on the dense output in the harness)", "the ODE solution itself cannot be a theorem: partial on integration accuracy"]
 
 
+KEY_VMIN = "C03:near-vMin-bracket-end-unconverged"
+
+
 def mu_(xi, v):
     return (xi - v) / (1 - xi * v)
 
@@ -81,6 +84,10 @@ def search(rep: C.Report, tier: str, broken):
         fams.append((f"twostep:Tn=0.6, temperatures x {s_:g}", _models.ScaledEOS(_models.twostep_eos(Tn=0.6), s_)))
         if tier == "thorough":
             fams.append((f"twostep:Tn=0.8, temperatures x {s_:g}", _models.ScaledEOS(_models.twostep_eos(Tn=0.8), s_)))
+    # stronger two-step transitions (alpha_n 0.27, 0.45) with walls only just above the minimal velocity, where the true v+ is small
+    fams.append(("twostep:abrok=0.5,asym=0.1,musq=0.4,Tn=0.6", _models.twostep_eos(abrok=0.5, asym=0.1, musq=0.4, Tn=0.6)))
+    if tier == "thorough":
+        fams.append(("twostep:abrok=0.3,asym=0.05,musq=0.5,Tn=0.6", _models.twostep_eos(abrok=0.3, asym=0.05, musq=0.5, Tn=0.6)))
     for name, th in fams:
         try:
             # scaled-unit families with the looser absolute tolerance the package's own tests use (1e-6)
@@ -89,7 +96,10 @@ def search(rep: C.Report, tier: str, broken):
             continue
         Tn = h.Tnucl
         alN, wN = h.template.alN, float(th.wHighT(Tn))
-        for vw in HC.velocities(h, r, nv):
+        vws_ = list(HC.velocities(h, r, nv))
+        if h.vMin > 0.05:
+            vws_ += [h.vMin + 0.002, h.vMin + 0.011, h.vMin + 0.02, h.vMin + 0.045]
+        for vw in vws_:
             try:
                 vp, vm, Tp, Tm = map(float, h.findMatching(vw))
             except Exception:  # noqa: BLE001
@@ -117,8 +127,17 @@ def search(rep: C.Report, tier: str, broken):
                     tn = math.nan
                 info.update(xi_shock=xs, v_shock=vs, T_shock=Ts, Tn_reached=tn)
                 if not abs(tn - Tn) <= 2e-4 * Tn:
+                    # diagnosis of known finding C03-V: the returned v+ sits at the lower end of the shooting bracket (vBracketLow), where the
+                    # inner 2x2 matching does not converge and makes the residual jump
+                    atlow = abs(vp - h.vBracketLow) < 0.2 * h.vBracketLow and vw < h.vMin + 0.06
+                    if atlow:
+                        try:
+                            h.matchDeflagOrHyb(vw, h.vBracketLow)
+                            atlow = not h.success
+                        except Exception:  # noqa: BLE001
+                            pass
                     rep.violation("integrating the fluid equations from (vw, v+, T+) to the shock front does not arrive at the nucleation temperature",
-                                  info, finding_key=f"C03:Tn:{branch}")
+                                  dict(info, vBracketLow=h.vBracketLow, vMin=h.vMin), finding_key=KEY_VMIN if atlow else f"C03:Tn:{branch}")
                 # constant sound speed ahead => momentum flux continuity at the front as well
                 cs2a, cs2b = float(th.csqHighT(Tn)), float(th.csqHighT(Ts))
                 if abs(cs2a - cs2b) < 1e-9 and math.isfinite(tn):
